@@ -146,10 +146,11 @@ def check_enum(ctx, F, adt, order, chars):
         # value.chars().next().ok_or(()).and_then(T::try_from)
         r_ = P.strip(prs.local(0), calls=False)
         if r_[0] == "call" and r_[1] == "std::result::Result::<T, E>::and_then" and len(r_[2]) == 2:
-            oo, fi = P.strip(r_[2][0], calls=False), P.strip(r_[2][1], calls=False)
-            if oo[0] == "call" and oo[1] == "std::option::Option::<T>::ok_or" and len(oo[2]) == 2 and fi[0] == "fn" and \
+            fi = P.strip(r_[2][1], calls=False)
+            subj_ = I.ok_or_subject(r_[2][0])
+            if subj_ is not None and fi[0] == "fn" and \
                     fi[2] in (f"<{adt} as std::convert::TryFrom<char>>::try_from", f"<{adt} as std::convert::TryFrom<&char>>::try_from"):
-                nx = P.strip(oo[2][0], calls=False)
+                nx = P.strip(subj_, calls=False)
                 first = nx[0] == "call" and (nx[1].endswith("::next") or (nx[1].endswith("::nth") and P.const_int(nx[2][1]) == 0))
                 if first:
                     src = P.strip(nx[2][0])
